@@ -447,6 +447,13 @@ class Fn:
                     raise NotTranslatable("`is None` on a non-optional")
                 return f"(Option.isNone {par(a)})" if isinstance(op, ast.Is) else f"(Option.isSome {par(a)})"
             raise NotTranslatable("`is` on values")
+        if isinstance(op, (ast.In, ast.NotIn)) and ta in ("Bytes", "Opt:Bytes") and tb in ("Bytes", "Opt:Bytes"):
+            # substring test on byte strings; an operand that may be None is only reached behind an `is not None` test
+            inner = "isInfix x y"
+            ea = f"(Option.elim {par(a)} false (fun x => INNER))" if ta.startswith("Opt:") else f"(let x := {a}; INNER)"
+            eb = f"(Option.elim {par(b)} false (fun y => {inner}))" if tb.startswith("Opt:") else f"(let y := {b}; {inner})"
+            c = ea.replace("INNER", eb)
+            return c if isinstance(op, ast.In) else f"(!{c})"
         if isinstance(op, (ast.In, ast.NotIn)):
             # IntFlag containment: `mask in value`  =  value & mask == mask
             if {ta, tb} <= {"Flags", "Lit"} and "Flags" in (ta, tb):
@@ -1229,7 +1236,7 @@ def translate_target(t):
 def header(t, note):
     return (f"import {t.get('import', 'P0f.Model.Find')}\nimport P0f.Model.Q\n"
             f"/-\n  GENERATED by harness/py2lean.py from {t['module']}.{t['func']} of the working tree - do not edit.\n  {note}\n-/\n"
-            "set_option linter.unusedVariables false\nnamespace P0f.Gen\nopen P0f\n\n")
+            "set_option linter.unusedVariables false\nnamespace P0f.Gen\nopen " + t.get("open", "P0f") + "\n\n")
 
 
 UNAVAILABLE = []
@@ -1240,8 +1247,10 @@ def _elaborates(path):
     """does the generated file elaborate on its own?  (a translation that is ill-typed in Lean is a limit of the
     translator, not a statement about the code)"""
     import subprocess
-    p = subprocess.run(["lake", "env", "lean", path], cwd=LEAN, stdout=subprocess.PIPE, stderr=subprocess.STDOUT, text=True)
-    return p.returncode == 0, p.stdout[-400:]
+    mod = "P0f.Generated.Logic." + os.path.basename(path)[:-5]
+    p = subprocess.run(["lake", "build", mod], cwd=LEAN, stdout=subprocess.PIPE, stderr=subprocess.STDOUT, text=True)
+    errs = [l for l in p.stdout.splitlines() if l.startswith("error:")]
+    return p.returncode == 0, (errs[0] if errs else p.stdout[-300:])
 
 
 def regenerate(targets=None, check=True):
